@@ -89,6 +89,11 @@ class KeySet:
                 # key names that contain a dot and have a sibling named like the part before the dot: ANOTHER key of
                 # the same type, and (for the first key of a type) a key of another type - the named key must be used
                 make(name + ".v2", ktype, enc, f"{seedstr}/{ktype}/{i}/v2")
+                # ... and back-up style siblings whose file name sorts before `<name>.<enc>` (a lookup by pattern or
+                # prefix would pick them): `<name>.bak.<enc>`, `<name>.1.<enc>` - usable as keys of their own, too
+                make(name + ".bak", ktype, enc, f"{seedstr}/{ktype}/{i}/bak")
+                if i == 0:
+                    make(name + ".1", ktype, enc, f"{seedstr}/{ktype}/{i}/one")
                 if i == 0:
                     other = types[(ti + 1) % len(types)]
                     make(name + ".x", other, enc, f"{seedstr}/{ktype}/{i}/x")
